@@ -39,8 +39,9 @@ type concOp struct {
 type concCase struct {
 	Kind  string     `json:"kind"`
 	Progs [][]concOp `json:"progs"`
-	Spin  bool       `json:"spin,omitempty"` // runtime.Gosched between ops
-	Pre   int        `json:"pre,omitempty"`  // search storm: documents added before the race starts
+	Spin  bool       `json:"spin,omitempty"`  // runtime.Gosched between ops
+	Pre   int        `json:"pre,omitempty"`   // search storm: documents added before the race starts
+	Empty bool       `json:"empty,omitempty"` // the race starts on an EMPTY index: every goroutine begins with an add, released by one barrier
 }
 
 var concKinds = []string{"flat", "hnsw", "ivf", "pq", "ivfpq", "bm25", "meta", "hybrid", "store"}
@@ -48,7 +49,7 @@ var concKinds = []string{"flat", "hnsw", "ivf", "pq", "ivfpq", "bm25", "meta", "
 const concIDBase = uint32(1) << 30
 
 func genConc(r *core.Rand, tier string) *concCase {
-	c := &concCase{Kind: concKinds[r.Pick(3, 2, 2, 3, 2, 2, 1, 3, 3)], Spin: r.Chance(0.5)}
+	c := &concCase{Kind: concKinds[r.Pick(3, 2, 2, 3, 2, 2, 3, 3, 3)], Spin: r.Chance(0.5)}
 	g := r.Range(2, 16)
 	if r.Chance(0.4) {
 		g = r.Range(2, 4)
@@ -67,31 +68,63 @@ func genConc(r *core.Rand, tier string) *concCase {
 		if c.Kind == "hnsw" {
 			storm = r.Chance(0.7)
 		}
+	case "meta", "bm25":
+		// big id sets read by many searches while a few writers mutate them
+		storm = r.Chance(0.5)
 	}
 	if storm {
 		g = 16
 		c.Pre = r.Range(150, 400)
 		c.Spin = false
 	}
+	// empty start: nothing is added before the race; all goroutines (usually many) start with an
+	// add at the same instant — "who creates the first entry" races.  For HNSW such a case stays
+	// within 2M+1 = 33 vertices with M = 16 and issues no removal, so that every vertex must be
+	// findable afterwards (begin … hnswfill)
+	if !storm && c.Kind != "store" && r.Chance(0.3) {
+		c.Empty = true
+		if r.Chance(0.7) {
+			g = r.Range(6, 16)
+		}
+	}
+	hnswFill := c.Empty && c.Kind == "hnsw"
 	next := concIDBase + uint32(r.Intn(1000))*64
 	var ids []uint32
 	// a few ids exist before the race starts (goroutine 0 adds them first)
 	c.Progs = make([][]concOp, g)
 	hot := r.Range(1, 4)
-	for i := 0; i < hot; i++ {
-		next++
-		ids = append(ids, next)
-		c.Progs[0] = append(c.Progs[0], concOp{Op: "add", ID: next})
+	if c.Empty {
+		hot = 1
+		for gi := 0; gi < g; gi++ {
+			next++
+			ids = append(ids, next)
+			c.Progs[gi] = append(c.Progs[gi], concOp{Op: "add", ID: next})
+		}
+	} else {
+		for i := 0; i < hot; i++ {
+			next++
+			ids = append(ids, next)
+			c.Progs[0] = append(c.Progs[0], concOp{Op: "add", ID: next})
+		}
 	}
 	for gi := 0; gi < g; gi++ {
 		n := r.Range(2, maxOps)
 		if storm {
 			n = r.Range(6, 12)
 		}
+		if hnswFill {
+			n = r.Range(0, 3)
+		}
 		for i := 0; i < n; i++ {
 			w := []int{6, 1, 5, 5, 2, 1, 1, 1}
 			if storm {
 				w = []int{2, 0, 2, 14, 1, 0, 0, 6}
+			}
+			if hnswFill {
+				w = []int{3, 0, 0, 5, 0, 1, 0, 2}
+				if len(ids) >= 30 {
+					w[0] = 0
+				}
 			}
 			switch r.Pick(w...) {
 			case 0:
@@ -305,6 +338,12 @@ func newConcTarget(kind string) (*concTarget, error) {
 			return nil, err
 		}
 		return vectorTarget(idx, 1, true), nil
+	case "hnswfill":
+		idx, err := comet.NewHNSWIndex(4, comet.DistanceKind("l2"), 16, 64, 4096)
+		if err != nil {
+			return nil, err
+		}
+		return vectorTarget(idx, 1, true), nil
 	case "hnsw":
 		idx, err := comet.NewHNSWIndex(4, comet.DistanceKind("l2"), 4, 32, 4096)
 		if err != nil {
@@ -506,8 +545,12 @@ func idsCSV(ids []uint32) string {
 }
 
 func execConc(c *concCase) []string {
-	lines := []string{fmt.Sprintf("begin conc %s %d", c.Kind, len(c.Progs))}
-	t, err := newConcTarget(c.Kind)
+	kind := c.Kind
+	if c.Empty && c.Kind == "hnsw" {
+		kind = "hnswfill"
+	}
+	lines := []string{fmt.Sprintf("begin conc %s %d", kind, len(c.Progs))}
+	t, err := newConcTarget(kind)
 	if err != nil {
 		return append(lines, "op panic constructor: "+err.Error(), "end")
 	}
@@ -707,7 +750,7 @@ func execConc(c *concCase) []string {
 	}
 	// the ids that exist before the race (leading adds of goroutine 0) are added first
 	pre := 0
-	for pre < len(c.Progs[0]) && c.Progs[0][pre].Op == "add" {
+	for !c.Empty && pre < len(c.Progs[0]) && c.Progs[0][pre].Op == "add" {
 		runOp(0, c.Progs[0][pre])
 		pre++
 	}
@@ -810,7 +853,7 @@ func concLen(c *concCase) int {
 }
 
 func concDrop(c *concCase, lo, hi int) *concCase {
-	n := &concCase{Kind: c.Kind, Spin: c.Spin, Pre: c.Pre, Progs: make([][]concOp, len(c.Progs))}
+	n := &concCase{Kind: c.Kind, Spin: c.Spin, Pre: c.Pre, Empty: c.Empty, Progs: make([][]concOp, len(c.Progs))}
 	k := 0
 	for g, p := range c.Progs {
 		for _, op := range p {
